@@ -150,9 +150,6 @@ where
     · exact a hn
     · exact hn c
 
-/-- geometry the reader derives from `N a` points `o a + j·c a` per axis -/
-def legCe (N : Nat → Nat) (c : Nat → Rat) (a : Nat) : Rat := if 1 < N a then c a else nm1
-
 theorem nm1_pos : 0 < nm1 := by unfold nm1; norm_num
 
 /-- the whole reader on a file of the old layout -/
@@ -336,5 +333,16 @@ theorem legacyRead_file (pre mid post : List LLine) (N : Nat → Nat) (o c : Nat
       rw [indicesF_getD _ _ hi] at this
       exact this
     · rfl
+
+/-- cell `j` of axis `a` of a mesh with corners `o − ce/2`, `o − ce/2 + N·ce` is centred on `o + j·ce` -/
+theorem legacy_centre (m : Mesh) (a : Nat) (N : Nat) (o ce : Rat) (hN : 1 ≤ N) (hn : m.nAt a = N)
+    (hlo : m.region.lo a = o - ce * (1/2)) (hhi : m.region.hi a = o - ce * (1/2) + (N : Rat) * ce) (j : Nat) :
+    m.centreAx a (j : Int) = o + (j : Rat) * ce := by
+  unfold centreAx cellAt Region.edge
+  rw [hn, hlo, hhi]
+  have : (N : Rat) ≠ 0 := by exact_mod_cast (by omega : N ≠ 0)
+  push_cast
+  field_simp
+  ring
 
 end DFV.C16
